@@ -172,3 +172,25 @@ def _per_group_zero_bits(ctx):
                 if present and all(common.zero_width(ctx.spec, m.ty, n.r.mod) for m in present):
                     return True
     return False
+
+
+def _strings(v):
+    if isinstance(v, str):
+        yield v
+    elif isinstance(v, (list, tuple)):
+        for x in v:
+            for s in _strings(x):
+                yield s
+    elif isinstance(v, dict):
+        for x in v.values():
+            for s in _strings(x):
+                yield s
+
+
+@finding(('C02', 'C13', 'C18', 'C19', 'C07'), 'xer-carriage-return')
+def _xer_cr(ctx):
+    # xer.py: ElementTree writes U+000D literally; every XML reader normalises it to U+000A
+    if ctx.codec != 'xer':
+        return False
+    from . import jsonio
+    return any('\r' in s for s in _strings(jsonio.dec(ctx.case.get('value'))))
